@@ -252,6 +252,24 @@ def r2_lme(ctx):
                         or unify(pl, ["?g = " + G_, "?re = {'random_intercept': ?g[0], 'random_slope_age': ?g[1]}", "return (?re, ?res)"], sub) is not None)
     ctx.form("C20.R2", p, p.node, joined, {joined} if ok else set(), ["$0._generic_get_random_effects(", CI, "[0]", "[1]", "'random_slope_age'"], "(intercept, slope) = generic formula with Z = X",
              "random intercept / slope are no longer the two components of the generic formula with Z = X", construct="intercept and slope")
+    # ... and these two are the only estimators: every definition of the returned dictionary is one of them, selected by the model's
+    # `with_random_slope_age` alone (a further branch - for short histories, for some ages ... - is another estimator for those individuals)
+    import re as _re
+    br = unify(pl, ["return (?re, ?res)"], sub) if sub else None
+    if br is not None:
+        cp_ = Canon(p.node)
+        cp_.lines(True, True)
+        cfgp = CFG(p.node)
+        defs_re = [(n_, st_) for n_, st_ in cfgp.stmt.items() if isinstance(st_, ast.Assign) and isinstance(st_.targets[0], ast.Name) and cp_.text(st_.targets[0], False, cp_.last_order) == br["re"]]
+        extra_guards = []
+        for n_, st_ in defs_re:
+            for h_, lab_ in cfgp.if_guards(n_):
+                g_ = cp_.text(cfgp.stmt[h_].test, True, cp_.last_order)
+                if g_ not in ("not $1.with_random_slope_age", "$1.with_random_slope_age"):
+                    extra_guards.append((st_, g_))
+        ctx.check(len(defs_re) == 2 and not extra_guards, "C20.R2", p, defs_re[0][1] if defs_re else p.node, "two estimators, selected by with_random_slope_age alone",
+                  (f"the random effects of an individual also depend on `{extra_guards[0][1][:80]}`: for the individuals it selects they are not the conditional means given the fitted variance components"
+                   if extra_guards else f"{len(defs_re)} definitions of the returned random effects (2 expected: intercept only / intercept and slope)"), construct="closed set of estimators")
     ok = "$3, $2 = $0._remove_nans($3, $2)" in pl
     ctx.check(ok, "C20.R2", p, p.node, "missing values dropped together with their ages", "missing values are no longer dropped (with their ages) before computing residuals", construct="NaN removal")
     t = readers[1]
